@@ -312,3 +312,30 @@ Proof.
   split; [cbn; intros [H|[H|[H|[]]]]; discriminate|].
   split; [left; reflexivity|right; left; reflexivity].
 Qed.
+
+(* ---- decks without TRCL -------------------------------------------------- *)
+
+(* a converted cell card without TRCL *)
+Definition plain (c : cell) : tcell :=
+  mkC (fst c) true false (map (fun z => mkL z 0 []) (snd c)).
+
+Lemma apply_trcls_plain cells : forall t key,
+  apply_trcls (map plain cells) t key = Ok (map (fun c => (true, c)) cells, t).
+Proof.
+  induction cells as [|[i zs] r IH]; intros t key; cbn; [reflexivity|].
+  rewrite IH. rewrite map_map. cbn. rewrite map_id. reflexivity.
+Qed.
+
+Lemma converted_plain cells : converted (map (fun c => (true, c)) cells) = cells.
+Proof.
+  unfold converted. induction cells as [|c r IH]; cbn; [reflexivity|]. f_equal. exact IH.
+Qed.
+
+(* [run] is [run_t] on decks whose cells are all converted and carry no TRCL *)
+Theorem run_t_plain cfg cards cells :
+  run_t cfg cards (map plain cells) = run cfg cards cells.
+Proof.
+  unfold run_t, run. destruct (parse_cards cards []) as [t|]; [|reflexivity].
+  destruct t as [|x r]; [reflexivity|].
+  rewrite apply_trcls_plain, converted_plain. reflexivity.
+Qed.
